@@ -23,6 +23,10 @@ CONFIGS = {
              "-DFOONATHAN_MEMORY_DEBUG_FENCE=0", "-DFOONATHAN_MEMORY_DEBUG_LEAK_CHECK=OFF",
              "-DFOONATHAN_MEMORY_DEBUG_POINTER_CHECK=ON",
              "-DFOONATHAN_MEMORY_DEBUG_DOUBLE_DEALLOC_CHECK=ON"],
+    # ThreadSanitizer build (threads driver only): a data race the schedule did not turn into a wrong result is still
+    # a report; the child exits with code 66 at the first one (TSAN_OPTIONS set by the engine)
+    "tsan": ["-DCMAKE_BUILD_TYPE=RelWithDebInfo", "-DCMAKE_CXX_FLAGS=-fsanitize=thread",
+             "-DCMAKE_EXE_LINKER_FLAGS=-fsanitize=thread"],
     "tm1":  ["-DCMAKE_BUILD_TYPE=RelWithDebInfo", "-DFOONATHAN_MEMORY_TEMPORARY_STACK_MODE=1"],
 }
 
